@@ -106,13 +106,21 @@ def fam_relay(w: World) -> None:
             w.fault('hdr_' + hdr_class)
         if body_kind != 'valid':
             w.fault('body_' + body_kind)
-        _one_post(w, hops, k, ctype, hdr_class, body, body_kind, status_fn, path, sub, use_sub)
+        pieces = None
+        if len(body) >= 2 and ch.flag(1, 3, 'net.pieces'):
+            # the body reaches the aiohttp server in 2-3 TCP segments, the later ones while the handler is running
+            cuts = sorted({1 + ch.draw(len(body) - 1, 'net.cut') for _ in range(1 + ch.draw(2, 'net.ncuts'))})
+            sizes = [b - a for a, b in zip([0] + cuts, cuts + [len(body)])]
+            pieces = [(ch.choice([0.0, 0.125, 1.0], 'net.gap'), n) for n in sizes]
+            w.scenario['posts'][-1]['pieces'] = pieces
+        _one_post(w, hops, k, ctype, hdr_class, body, body_kind, status_fn, path, sub, use_sub, pieces)
         if w.violations:
             return
 
 
 def _one_post(w: World, hops: Dict[str, Any], k: int, ctype: Optional[str], hdr_class: str, body: bytes, body_kind: str,
-              status_fn: str, path: str, sub: Optional[str], use_sub: bool) -> None:
+              status_fn: str, path: str, sub: Optional[str], use_sub: bool,
+              pieces: Optional[List[Tuple[float, int]]] = None) -> None:
     mt = ctype.split(';')[0].strip() if ctype is not None else None
     documented = mt in DOCUMENTED
     results: Dict[str, H.HopResult] = {}
@@ -120,7 +128,7 @@ def _one_post(w: World, hops: Dict[str, Any], k: int, ctype: Optional[str], hdr_
         hop = hops[name]
         url = path.rstrip('/') + (sub if use_sub and name != 'werkzeug' else '')
         before = len(w.history)
-        res = hop.post(url or '/', body, ctype)
+        res = hop.post(url or '/', body, ctype, pieces) if name == 'aiohttp' else hop.post(url or '/', body, ctype)
         results[name] = res
         execs = [r for r in w.history[before:] if r['kind'] == 'method.enter']
         ctx = {'integration': name, 'header_class': hdr_class, 'media_type': mt, 'body_kind': body_kind,
